@@ -10,8 +10,8 @@ CHECKS = {
          "Trusts num-bigint/num-rational and the raw-field reader; Function operands have their oneof set; quadratic operands have no duplicated position (per the property's quantifier).",
          "DESIGN.md §5 C02"),
  "C03": ("proptest-driven generation of functions/constraints/instances x state splits (one- and two-step, both orders) vs exact partial evaluation and the reference evaluator",
-         "Generated-input search: polynomial of the partially evaluated message compared coefficient-wise with the exact partial evaluation (bit-exact dyadic / rigorous bound), returned id sets bracketed, substituted values recorded, remainder evaluated and compared with the reference evaluator at the combined assignment.",
-         "Trusts harness/src/exact.rs and model.rs; states in-bound, no values for dependent variables; documented sub-epsilon drops are allowed for in the bound.",
+         "Generated-input search: polynomial of the partially evaluated message compared coefficient-wise with the exact partial evaluation (bit-exact dyadic / rigorous bound), returned id sets bracketed, fixed values recorded on the fixed variables, id / kind / effective bound of every variable kept, remainder evaluated and compared with the reference evaluator at the combined assignment.",
+         "Trusts harness/src/exact.rs and model.rs; states in-bound; a dependent variable is fixed only at the value its definition gives it; documented sub-epsilon drops are allowed for in the bound.",
          "DESIGN.md §5 C03"),
  "C04": ("proptest-driven generation of replacement maps / successive substitutions / log_encode->substitute and of dependency graphs, the latter evaluated under every iteration order of the dependency HashMap, vs exact simultaneous composition and topological evaluation",
          "Generated-input search plus exhaustive enumeration of the n! (n<=5) iteration orders of the dependency map per graph (map rebuilt with fresh hashers until all permutations were observed); cyclic, self-referential and dangling graphs must be rejected under every order.",
@@ -34,11 +34,11 @@ CHECKS = {
          "Whether the typed conversion rejects undefined variable ids inside functions is not asserted (statement lists it under validation).",
          "DESIGN.md §5 C08"),
  "C09": ("proptest-driven generation of instances x {penalty_method, uniform_penalty_method} x weights vs exact polynomial f + sum w g^2 in the joint variables and a bookkeeping model",
-         "Generated-input search with an exact-rational oracle for the parametric objective (coefficient-wise in (x, w), also after instantiating the weights) and a model of which constraints/parameters/fields must be present.",
+         "Generated-input search with an exact-rational oracle for the parametric objective (coefficient-wise in (x, w), also after instantiating the weights) and a model of which constraints (id, equality, function as a polynomial), weight parameters (ids, tags) and carried parts (variables, sense, dependencies) must be present; hints, descriptions, names and reasons are recorded but not asserted.",
          "Trusts exact.rs; variable ids below u64::MAX-8.",
          "DESIGN.md §5 C09"),
  "C10": ("proptest-driven generation of parametric instances x parameter assignments (complete, extras, missing) vs exact partial evaluation at p; instance->parametric->instance round trip",
-         "Generated-input search: objective and every active constraint compared coefficient-wise with the exact partial evaluation, all other fields unchanged, parameters recorded, missing parameter rejected.",
+         "Generated-input search: objective and every active constraint compared coefficient-wise with the exact partial evaluation, variables / removed constraints / hints unchanged (any list order), values of the declared parameters recorded, missing parameter rejected.",
          "Trusts exact.rs.",
          "DESIGN.md §5 C10"),
  "C11": ("proptest-driven generation of binary objectives in any representation; oracle = exact evaluation on all 2^n assignments plus uniqueness of the multilinear form; each refusal condition generated",
@@ -50,7 +50,7 @@ CHECKS = {
          "Existing variable ids far below u64::MAX.",
          "DESIGN.md §5 C12"),
  "C13": ("proptest-driven generation of small integer boxes x rational-coefficient inequalities x limits; oracle = brute force over every lattice point and every slack value in exact rational arithmetic",
-         "Generated-input search; per case the feasible sets before/after are compared on the complete lattice (<=343 points) and all slack values (affine-interval argument above 4096 values); outcome-specific checks for converted / relaxed / infeasible / rejected.",
+         "Generated-input search; per case the feasible sets before/after are compared on the complete lattice (<=343 points) and all slack values (affine-interval argument above 4096 values); outcome-specific checks for converted / relaxed / infeasible / rejected; the introduced variable is identified by its fresh id, its range read from its bound.",
          "Tolerance 1e-6 as in the SDK's feasibility test, intended values separated by >=1e-3; converse directions only for (normalised) linear functions.",
          "DESIGN.md §5 C13"),
  "C15": ("proptest-driven generation of instances of both senses, evaluated sample sets and hand-built SampleSet messages in current and 1.6 encodings (through protobuf bytes); oracle = exact negation / brute-force arg-best",
@@ -58,7 +58,7 @@ CHECKS = {
          "Pre-1.6 messages with only `feasible` are not generated (no documented reading).",
          "DESIGN.md §5 C15"),
  "C16": ("exhaustive sweep over all ordered pairs of endpoint-class intervals x {+,*,^0..8,scale,shift} with placed points, plus proptest-driven random intervals, evaluate_bound over boxes, as_integer_bound and content_factor; oracle = exact rational pointwise values",
-         "Exploration with an exhaustively enumerated corner-class sub-space (every combination of {-inf, negative, -0, 0, positive, +inf} endpoint classes); containment exact for dyadic data, relative 1e-9 otherwise; invalid intervals and panics are failures.",
+         "Exploration with an exhaustively enumerated corner-class sub-space (every combination of {-inf, negative, -0, 0, positive, +inf} endpoint classes); containment exact for dyadic data, relative 1e-9 otherwise; every spelling of an operator (binary, reversed, assign form) is held to enclosure itself; invalid intervals and panics are failures.",
          "Scaling by 0 excluded by the statement; as_integer_bound only on intervals containing an integer; magnitudes <= 1e6.",
          "DESIGN.md §5 C16"),
  "C17": ("proptest-driven generation of abstract LP/MIP models rendered by an independent free-format MPS writer in generated layouts (3/5-field, tabs, comments, OBJSENSE variants, gzip) and with injected errors; oracle = the abstract model (matching by name, exact polynomials, value domains)",
@@ -70,12 +70,12 @@ CHECKS = {
          "Names/metadata/removed constraints documented as not preserved; linear functions normalised.",
          "DESIGN.md §5 C18"),
  "C19": ("sweep over all 120 problem-type codes plus proptest-driven abstract QPs rendered by an independent QPLIB writer (comments, blank lines, trailing text, capitalisation), injected token errors and truncation after every line; oracle = abstract model and the physical line recorded by the writer",
-         "Exploration with the 120-code configuration space swept completely in every run; objective/constraint polynomials exact (1/2 x'Qx convention), value domains, names, one <=0 constraint per finite side, error messages must carry the recorded line.",
+         "Exploration with the 120-code configuration space swept completely in every run; objective/constraint polynomials exact (1/2 x'Qx convention), value domains, names, one <=0 constraint per finite side, errors must carry the recorded line number (any rendering); variables matched by id rank.",
          "Multiple blanks inside entry lines, index 0, over-long counts and upper-triangle entries are not generated (no documented expectation).",
          "DESIGN.md §5 C19"),
  "C20": ("model-based testing: generated histories of add_* operations with annotation maps built through the typed setters, archives built locally and re-opened, compared with an in-memory model; a non-OMMX image built with ocipkg's own builder",
          "Generated operation sequences (0..6 layers, four kinds, empty and repeated messages, identical bytes under different kinds) checked after build() and after from_oci_archive(): order, media types, messages, annotations, typed accessors, wrong-kind and unknown-digest requests, list accessors.",
-         "Local unnamed archives only; with one message stored twice under one kind the digest may return either copy's annotations.",
+         "Local unnamed archives only; the process runs under a non-UTC local time zone (chosen from VERIF_SEED, recorded in replay files); with one message stored twice under one kind the digest may return either copy's annotations.",
          "DESIGN.md §5 C20"),
  "C14": ("model-based stateful testing: generated relax/restore/evaluate histories interpreted against a two-map model with invariants checked after every step",
          "Generated operation sequences (<=8 quick, <=20 thorough) with ids from active/removed/unknown; Ok/Err, unchanged-on-error, constraint collection, list membership, reasons, per-state values and feasibility invariance checked after every step.",
